@@ -595,11 +595,19 @@ def _energies(atoms_kw, W_fn=None, xc="pbe", seed=0):
     s_ = kw.pop("s", None)
     kmesh = kw.pop("kmesh", None)
     recenter = kw.pop("recenter_by", None)
+    then_set = kw.pop("then_set", None)
     at = Atoms(**kw)
     if s_ is not None:
         at.s = list(s_)
     if kmesh is not None:
         at.kpts.kmesh = list(kmesh)
+    if then_set is not None:
+        # the transformed system reached through the SETTERS of an object that has already been built for the untransformed one
+        at.build()
+        at.a = then_set["a"]
+        at.pos = then_set["pos"]
+        if s_ is not None:
+            at.s = list(s_)
     scf = SCF(at, xc=xc, verbose="critical")
     at = scf.atoms
     from eminus.dft import guess_pseudo
@@ -702,6 +710,13 @@ class RigidMotion:
             R = np.array([[0.0, -1.0, 0.0], [1.0, 0.0, 0.0], [0.0, 0.0, 1.0]]) if seed % 100 == 0 else _rotation(rng)
             kw2 = dict(kw, a=(np.array(kw["a"]) @ R.T).tolist(), pos=(np.array(kw["pos"]) @ R.T).tolist())
             e1, _, _ = _energies(kw2, seed=seed)
+        elif self.kind == "rotation_through_setters_on_a_built_object":
+            # k-mesh with k != 0; the rotated cell and positions are ASSIGNED to an object built for the unrotated system (cell metric and volume unchanged)
+            kw = dict(kw, atom=["Si", "C"], pos=pos[:2].tolist(), ecut=5, s=[13, 13, 15], kmesh=[2, 2, 1])
+            e0, at0, W0 = _energies(kw, seed=seed)
+            R = np.array([[0.0, -1.0, 0.0], [1.0, 0.0, 0.0], [0.0, 0.0, 1.0]]) if seed % 100 == 0 else _rotation(rng)
+            a_ = np.array(kw["a"])
+            e1, _, _ = _energies(dict(kw, then_set=dict(a=(a_ @ R.T).tolist(), pos=(np.array(kw["pos"]) @ R.T).tolist())), seed=seed)
         else:
             raise ValueError(self.kind)
         # the Ewald sum is truncated at the tolerance documented for get_Eewald (C10): its invariance holds to that (relative) accuracy
@@ -731,6 +746,7 @@ for _k, _doc in (("rotation", "rotating cell vectors and atom positions together
                  ("grid_translation", "translating the system by a real-space grid vector with the coefficients translated by T"),
                  ("grid_translation_by_recenter", "translating the system by a real-space grid vector through SCF.recenter (atoms, orbitals and potentials of ONE object move together)"),
                  ("rotation_orthorhombic_cell_with_kmesh", "rotating an orthorhombic cell with a 2x1x2 k-mesh off the Cartesian axes"),
+                 ("rotation_through_setters_on_a_built_object", "assigning the rotated cell and positions to an object that was built for the unrotated system (2x2x1 k-mesh)"),
                  ("rotation_several_projectors_per_channel", "rotating a Ge / Ca system (two projectors in the p channels)")):
     register(Obligation(name=f"C06.energies.{_k}", prop=PROP, engine="B", bounded=True, run=RigidMotion(_k),
                         functions=["eminus.energies:get_E", "eminus.energies:get_Eewald", "eminus.gth:init_gth_loc", "eminus.gth:init_gth_nonloc", "eminus.operators:T"]
